@@ -341,7 +341,12 @@ def run_x(out: Outcome, programs, prop, max_cex=8, nshards=None, timeout_s=600, 
     if nshards is None:
         nshards = max(1, min(8, n // 40))
     crates = xrun.build_kani_crates(work, progs, ann, sel, nshards, plain=ann0)
-    res, meta = xrun.run_kani(crates, timeout_s=timeout_s)
+    # a set_x proof that uses with_x's contract as a stub (delegating setters, xrun.bind_rawnames) needs ~4.4 GB of CBMC memory per
+    # harness (measured); 16 of them at once exhaust this machine's 62 GB, so the parallelism is halved when such harnesses exist
+    deleg = any(getattr(f, "set_calls_with", False) for p in progs for st in p.structs for f in st.fields)
+    res, meta = xrun.run_kani(crates, jobs_total=(max(1, xrun.NCPU // 2) if deleg else xrun.NCPU), timeout_s=timeout_s)
+    if deleg:
+        out.notes.append("in-place setters delegate to with_x on this tree: proved against with_x's verified contract (stub_verified), at half the parallelism (memory)")
     out.solver_s += meta["solver_s"]
     out.vccs += meta["vccs"]
     out.programs += len(progs)
